@@ -41,8 +41,10 @@
 (*      UNEXPECTED_MESSAGE, a CONNECT nobody accepts within AcceptTimeout  *)
 (*      -> CONNECTION_FAILED (stream closed, or reset if the answer cannot *)
 (*      be written); otherwise STATUS OK written by exactly one Accept,    *)
-(*      which returns the connection: ExactlyOne (ghost `ans`),            *)
-(*      AcceptBounded, NoMissedRendezvous.                                 *)
+(*      which returns the connection; an Accept whose STATUS OK cannot be  *)
+(*      written resets that stream and keeps waiting (it does not fail:    *)
+(*      the relay must not be able to end the listener): ExactlyOne (ghost *)
+(*      `ans`), AcceptBounded, NoMissedRendezvous.                         *)
 (*  K8  Listener.Close unblocks every Accept with ErrListenerClosed; a     *)
 (*      connection still queued then is refused at its accept timeout:     *)
 (*      CloseUnblocks (+ AcceptBounded).                                   *)
